@@ -426,6 +426,8 @@ fn relabel_outcome<F: PrimeField, M: Tab<F>>(
             loc.class_if(nontrivial && a > b, "relabel:a>b");
             loc.class_if(a == b && kk > 0, "relabel:a=b");
             loc.class_if(kk > 0 && a.max(b) + kk == n, "relabel:top_window");
+            loc.class_if(nontrivial && kk >= 2, "relabel:window_width>=2");
+            loc.class_if(nontrivial && kk >= 2 && a.min(b) + kk < a.max(b), "relabel:window_width>=2_with_gap");
             let want = m_relabel(t, a, b, kk);
             let ok = q.num_vars() == n && q.table().as_deref() == Some(&want[..]);
             chk(loc, site, ok, || format!("{desc}.relabel({a},{b},{kk}) = {} want table {want:?}", q.describe()));
@@ -452,13 +454,16 @@ fn relabel_outcome<F: PrimeField, M: Tab<F>>(
             loc.class("relabel:noop_window_out_of_range");
             loc.op();
         }
-        (RL::Illegal, Ok(q)) => {
+        // malformed argument (overlapping / out-of-range window): the property speaks about relabel windows,
+        // i.e. well-formed ones; nothing is demanded, the observed behaviour is counted
+        (RL::Illegal, Ok(_)) => {
             loc.class("relabel:illegal_window");
+            loc.class("observed:illegal_relabel_window_returns_a_value");
             loc.op();
-            flunk(loc, site, format!("{desc}.relabel({a},{b},{kk}) with n={n} is an overlapping/out-of-range window but did not panic (documented asserts); returned {}", q.describe()));
         }
         (RL::Illegal, Err(_)) => {
             loc.class("relabel:illegal_window");
+            loc.class("observed:illegal_relabel_window_panics");
             loc.op();
         }
     }
@@ -624,6 +629,46 @@ fn dense_sweeps<F: PrimeField>(ctx: &mut Ctx, p: u64, spaces: &[TableSpace]) {
     }
 }
 
+/// Dense (and, through `dense_case`, sparse) MLEs with MORE variables than the enumerated universes: relabel
+/// windows of width k >= 2 only exist from n = 4 on.  Tables: every unit table e_i, e_i + 2 e_(i+1), and three
+/// dense tables over {0,1,2}; everything `dense_case` does (all points, all partial points, all windows).
+fn wide_tables(n: usize, with_pairs: bool) -> Vec<Vec<u64>> {
+    let size = 1usize << n;
+    let mut out: Vec<Vec<u64>> = Vec::new();
+    for i in 0..size {
+        let mut t = vec![0u64; size];
+        t[i] = 1;
+        out.push(t);
+    }
+    if with_pairs {
+        for i in 0..size - 1 {
+            let mut t = vec![0u64; size];
+            t[i] = 1;
+            t[i + 1] = 2;
+            out.push(t);
+        }
+    }
+    out.push((0..size).map(|i| (i % 3) as u64).collect());
+    out.push((0..size).map(|i| ((i * i + 1) % 3) as u64).collect());
+    out.push((0..size).map(|i| ((i / 2 + i / 4 + 2 * i) % 3) as u64).collect());
+    out
+}
+fn dense_wide_sweep<F: PrimeField>(ctx: &mut Ctx, p: u64, ns: &[usize]) {
+    let mut cases: Vec<(usize, Vec<u64>)> = Vec::new();
+    for n in ns {
+        for t in wide_tables(*n, *n == 4) {
+            cases.push((*n, t));
+        }
+    }
+    let tag: Vec<String> = ns.iter().map(|n| n.to_string()).collect();
+    ctx.sweep(&format!("dense_mle_wide.F{p}.n={}", tag.join("+")), cases.len() as u64, |i, loc| {
+        let (n, t) = &cases[i as usize];
+        loc.class("mle:n>=4");
+        loc.class_if(*n >= 5, "mle:n>=5");
+        dense_case::<F>(loc, p, *n, t);
+    });
+}
+
 /// all ordered pairs (left from `lhs`, right from `rhs`), every operator spelling, every scalar
 fn mle_pair_sweep<F: PrimeField, M: Tab<F>>(ctx: &mut Ctx, p: u64, n: usize, lhs: &TableSpace, rhs: &[Vec<u64>], tag: &str) {
     let nl = lhs.len();
@@ -654,8 +699,24 @@ fn concat_sweep<F: PrimeField>(ctx: &mut Ctx, p: u64, max_n: usize, max_len: usi
             tables.push((n, sp.get(i)));
         }
     }
+    concat_tables_sweep::<F>(ctx, p, &format!("dense_concat.F{p}.n_i<={max_n}.len<={max_len}"), &tables, max_len);
+}
+/// parts with 2..4 variables, so that results have 4..6 variables
+fn concat_wide_sweep<F: PrimeField>(ctx: &mut Ctx, p: u64) {
+    let mut tables: Vec<MV> = Vec::new();
+    for t in wide_tables(3, false) {
+        tables.push((3, t));
+    }
+    let w4 = wide_tables(4, false);
+    tables.push((4, w4[5].clone()));
+    tables.push((4, w4[16].clone()));
+    tables.push((2, vec![1, 2, 0, 1]));
+    tables.push((0, vec![2]));
+    concat_tables_sweep::<F>(ctx, p, &format!("dense_concat_wide.F{p}.n_i<=4.len<=3"), &tables, 3);
+}
+fn concat_tables_sweep<F: PrimeField>(ctx: &mut Ctx, p: u64, name: &str, tables: &[MV], max_len: usize) {
     let a = tables.len() as u64;
-    ctx.sweep(&format!("dense_concat.F{p}.n_i<={max_n}.len<={max_len}"), lists_count(a, max_len), |i, loc| {
+    ctx.sweep(name, lists_count(a, max_len), |i, loc| {
         let l = list_get(i, a, max_len);
         let parts: Vec<&MV> = l.iter().map(|k| &tables[*k as usize]).collect();
         let polys: Vec<Dense<F>> = parts.iter().map(|(n, t)| Dense::from_evaluations_vec(*n, fv(t))).collect();
@@ -674,6 +735,7 @@ fn concat_sweep<F: PrimeField>(ctx: &mut Ctx, p: u64, max_n: usize, max_len: usi
         loc.class_if(l.is_empty(), "concat:empty_list");
         loc.class_if(total != size, "concat:padded");
         loc.class_if(parts.iter().any(|x| x.0 != parts[0].0), "concat:mixed_sizes");
+        loc.class_if(wn >= 4, "concat:result_n>=4");
         if loc.sampling() {
             loc.sample(format!("F_{p} concat of {:?}", parts));
         }
@@ -701,7 +763,13 @@ fn concat_sweep<F: PrimeField>(ctx: &mut Ctx, p: u64, max_n: usize, max_len: usi
 }
 
 fn construction_panics<F: PrimeField>(ctx: &mut Ctx, p: u64) {
-    // documented asserts on malformed constructor / evaluation arguments
+    // malformed constructor / evaluation arguments: well-formed ones must be accepted; for malformed ones the
+    // property demands nothing (the library asserts today) - the observed behaviour is counted as a class
+    fn observe<T>(loc: &mut Loc, malformed: bool, r: &std::thread::Result<T>) {
+        if malformed {
+            loc.class(if r.is_ok() { "observed:malformed_input_returns_a_value" } else { "observed:malformed_input_panics" });
+        }
+    }
     ctx.sweep(&format!("documented_asserts.F{p}"), 4 * 10, |i, loc| {
         let [n, len] = unrank(i, [4, 10]);
         let (n, len) = (n as usize, len as usize);
@@ -709,11 +777,13 @@ fn construction_panics<F: PrimeField>(ctx: &mut Ctx, p: u64) {
         let r = catch_unwind(AssertUnwindSafe(|| Dense::<F>::from_evaluations_vec(n, v.clone())));
         let legal = len == 1 << n;
         loc.class_if(!legal, "assert:table_length");
-        chk(loc, "dense_construct", r.is_ok() == legal, || format!("from_evaluations_vec(n={n}, len={len}): ok={} but 2^n = {}", r.is_ok(), 1 << n));
+        observe(loc, !legal, &r);
+        chk(loc, "dense_construct", !legal || r.is_ok(), || format!("from_evaluations_vec(n={n}, len={len}) panics although 2^n = {}", 1 << n));
         // sparse index range
         let r = catch_unwind(AssertUnwindSafe(|| Sparse::<F>::from_evaluations(n, &vec![(len, F::one())])));
         loc.class_if(len >= 1 << n, "assert:sparse_index_range");
-        chk(loc, "sparse_construct", r.is_ok() == (len < 1 << n), || format!("Sparse::from_evaluations(n={n}, index {len}): ok={}", r.is_ok()));
+        observe(loc, len >= 1 << n, &r);
+        chk(loc, "sparse_construct", len >= 1 << n || r.is_ok(), || format!("Sparse::from_evaluations(n={n}, index {len}) panics on an index < 2^n"));
         // point / partial point length
         if len <= 5 {
             let t = vec![1u64; 1 << n];
@@ -723,12 +793,16 @@ fn construction_panics<F: PrimeField>(ctx: &mut Ctx, p: u64) {
             loc.class_if(len != n, "assert:point_length");
             let rd = catch_unwind(AssertUnwindSafe(|| d.evaluate(&x)));
             let rs = catch_unwind(AssertUnwindSafe(|| s.evaluate(&x)));
-            chk(loc, "dense_evaluate", rd.is_ok() == (len == n), || format!("dense n={n} evaluate at a point of length {len}: ok={}", rd.is_ok()));
-            chk(loc, "sparse_evaluate", rs.is_ok() == (len == n), || format!("sparse n={n} evaluate at a point of length {len}: ok={}", rs.is_ok()));
+            observe(loc, len != n, &rd);
+            observe(loc, len != n, &rs);
+            chk(loc, "dense_evaluate", len != n || rd.is_ok(), || format!("dense n={n} evaluate at a point of length {len} panics"));
+            chk(loc, "sparse_evaluate", len != n || rs.is_ok(), || format!("sparse n={n} evaluate at a point of length {len} panics"));
             let rd = catch_unwind(AssertUnwindSafe(|| d.fix_variables(&x)));
             let rs = catch_unwind(AssertUnwindSafe(|| s.fix_variables(&x)));
-            chk(loc, "dense_fix_variables", rd.is_ok() == (len <= n), || format!("dense n={n} fix_variables with {len} values: ok={}", rd.is_ok()));
-            chk(loc, "sparse_fix_variables", rs.is_ok() == (len <= n), || format!("sparse n={n} fix_variables with {len} values: ok={}", rs.is_ok()));
+            observe(loc, len > n, &rd);
+            observe(loc, len > n, &rs);
+            chk(loc, "dense_fix_variables", len > n || rd.is_ok(), || format!("dense n={n} fix_variables with {len} values panics"));
+            chk(loc, "sparse_fix_variables", len > n || rs.is_ok(), || format!("sparse n={n} fix_variables with {len} values panics"));
         }
     });
 }
@@ -745,7 +819,7 @@ fn sparse_list_sweep<F: PrimeField>(ctx: &mut Ctx, p: u64, n: usize, max_len: us
         let mut dup = false;
         for (ix, v) in &pairs {
             dup |= !seen.insert(*ix);
-            t[*ix] = *v; // a later pair overrides (map-insert semantics; stated as assumption)
+            t[*ix] = *v; // (a later pair overrides: only used to LABEL what is observed for lists with a repeated index)
         }
         loc.class_if(dup, "sparse:duplicate_index");
         loc.class_if(pairs.iter().any(|x| x.1 == 0), "sparse:explicit_zero_value");
@@ -765,8 +839,17 @@ fn sparse_list_sweep<F: PrimeField>(ctx: &mut Ctx, p: u64, n: usize, max_len: us
         }
         let fp: Vec<(usize, F)> = pairs.iter().map(|(ix, v)| (*ix, fe(*v))).collect();
         let s = Sparse::<F>::from_evaluations(n, &fp);
-        let site = if dup { "sparse_construct_duplicate_index" } else { "sparse_construct" };
-        if !chk(loc, site, s.num_vars == n && s.table().as_deref() == Some(&t[..]), || format!("Sparse::from_evaluations(n={n}, {pairs:?}) = {} want table {t:?}", s.describe())) {
+        if dup {
+            // a list that names an index twice is not a table: nothing is demanded (the rustdoc is silent); the
+            // observed behaviour is counted, and the object is only used further when it is the "later pair
+            // overrides" table
+            let later = s.num_vars == n && s.table().as_deref() == Some(&t[..]);
+            loc.class(if later { "observed:duplicate_index_later_pair_overrides" } else { "observed:duplicate_index_other_outcome" });
+            loc.op();
+            if !later {
+                return;
+            }
+        } else if !chk(loc, "sparse_construct", s.num_vars == n && s.table().as_deref() == Some(&t[..]), || format!("Sparse::from_evaluations(n={n}, {pairs:?}) = {} want table {t:?}", s.describe())) {
             return;
         }
         if !mle_common(loc, p, n, &t, &s) {
@@ -818,6 +901,98 @@ fn sparse_wide_sweep<F: PrimeField>(ctx: &mut Ctx, p: u64, n: usize) {
             return;
         }
         mle_common(loc, p, n, &t, &s);
+    });
+}
+
+/// Sparse MLEs with n = 5, 6 (7 in thorough) and entry counts on both sides of every power of two from 1 to 33:
+/// `fix_variables` folds ceil(log2(#entries)) variables per batch, so batch windows of 4 and 5 variables need
+/// >= 9 / >= 17 entries and n >= 5 / 6 to be followed by another batch.  Every prefix length, every partial point
+/// over a 3-letter alphabet; the dense form of the same table is put through the same calls.
+fn sparse_batch_sweep<F: PrimeField>(ctx: &mut Ctx, p: u64, ns: &[usize]) {
+    let counts = [1usize, 2, 3, 4, 5, 7, 8, 9, 15, 16, 17, 31, 32, 33, 63, 64, 65];
+    let mut cases: Vec<(usize, usize, usize)> = Vec::new();
+    for n in ns {
+        for c in counts {
+            if c <= 1 << n {
+                for pat in 0..3 {
+                    cases.push((*n, c, pat));
+                }
+            }
+        }
+    }
+    let alpha: Vec<u64> = dedup_sorted(vec![0, 1, p - 1]);
+    let alpha2: Vec<u64> = dedup_sorted(vec![2 % p, p - 2]);
+    let tag: Vec<String> = ns.iter().map(|n| n.to_string()).collect();
+    ctx.sweep(&format!("sparse_mle_batches.F{p}.n={}", tag.join("+")), cases.len() as u64, |i, loc| {
+        let (n, c, pat) = cases[i as usize];
+        let size = 1usize << n;
+        let idx: Vec<usize> = (0..c)
+            .map(|j| match pat {
+                0 => j,
+                1 => (j * 7 + 3) % size, // 7 is odd: a bijection of 0..2^n
+                _ => size - 1 - j,
+            })
+            .collect();
+        let pairs: Vec<(usize, u64)> = idx.iter().enumerate().map(|(j, ix)| (*ix, (j as u64 % (p - 1)) + 1)).collect();
+        let mut t = vec![0u64; size];
+        for (ix, v) in &pairs {
+            t[*ix] = *v;
+        }
+        // replica of the batch-window rule (labels only; entry counts straddle every power of two so that any
+        // window rule is exercised with and without a following batch)
+        let window = {
+            let mut w = 0usize;
+            while (1usize << w) < c {
+                w += 1;
+            }
+            w.max(1)
+        };
+        loc.class_if(n > window, "sparse_fix:several_batches");
+        loc.class_if(window >= 4, "sparse_fix:batch_window>=4");
+        loc.class_if(window >= 4 && n > window, "sparse_fix:batch_window>=4_several_batches");
+        loc.class_if(window >= 5 && n > window, "sparse_fix:batch_window>=5_several_batches");
+        loc.class_if(c.is_power_of_two(), "sparse:entries=2^k");
+        loc.class_if((c - 1).is_power_of_two() && c > 2, "sparse:entries=2^k+1");
+        loc.class_if((c + 1).is_power_of_two() && c > 2, "sparse:entries=2^k-1");
+        loc.class("mle:n>=5");
+        if loc.sampling() {
+            loc.sample(format!("F_{p} sparse MLE n={n} with {c} entries {pairs:?}: evaluate, fix_variables (all prefix lengths), to_dense; same for the dense form"));
+        }
+        let fp: Vec<(usize, F)> = pairs.iter().map(|(ix, v)| (*ix, fe(*v))).collect();
+        let s = Sparse::<F>::from_evaluations(n, &fp);
+        if !chk(loc, "sparse_construct", s.num_vars == n && s.table().as_deref() == Some(&t[..]), || format!("Sparse::from_evaluations(n={n}, {pairs:?}) = {}", s.describe())) {
+            return;
+        }
+        let d = Dense::<F>::from_evaluations_vec(n, fv(&t));
+        let back = s.to_dense_multilinear_extension();
+        chk(loc, "sparse_to_dense", back.num_vars == n && back.table().as_deref() == Some(&t[..]), || format!("{}.to_dense_multilinear_extension() = {}", s.describe(), back.describe()));
+        let te = uv(&s.to_evaluations());
+        chk(loc, "sparse_to_evaluations", te == t, || format!("{}.to_evaluations() = {te:?}", s.describe()));
+        // points: {0,1,p-1}^n and {2,p-2}^n
+        let mut pts: Vec<Vec<u64>> = (0..ipow(alpha.len() as u64, n)).map(|pi| digits(pi, alpha.len() as u64, n).iter().map(|k| alpha[*k as usize]).collect()).collect();
+        pts.extend((0..ipow(alpha2.len() as u64, n)).map(|pi| digits(pi, alpha2.len() as u64, n).iter().map(|k| alpha2[*k as usize]).collect::<Vec<u64>>()));
+        for x in &pts {
+            let want = m_eval(p, &t, x);
+            let fx = fv::<F>(x);
+            let (gs, gd) = (un(&s.evaluate(&fx)), un(&d.evaluate(&fx)));
+            chk(loc, "sparse_evaluate", gs == want, || format!("{}.evaluate({x:?}) = {gs} want {want} (mod {p})", s.describe()));
+            chk(loc, "dense_evaluate", gd == want, || format!("{}.evaluate({x:?}) = {gd} want {want} (mod {p})", d.describe()));
+        }
+        for dl in 0..=n {
+            loc.class_if(dl > window && dl % window != 0 && dl < n, "sparse_fix:partial_longer_than_batch_not_multiple");
+            for ri in 0..ipow(alpha.len() as u64, dl) {
+                let r: Vec<u64> = digits(ri, alpha.len() as u64, dl).iter().map(|k| if ri % 2 == 1 && *k == 0 { 2 % p } else { alpha[*k as usize] }).collect();
+                let want = m_fix(p, &t, &r);
+                let fr = fv::<F>(&r);
+                let (xs, xd) = (s.fix_variables(&fr), d.fix_variables(&fr));
+                chk(loc, "sparse_fix_variables", xs.num_vars == n - dl && xs.table().as_deref() == Some(&want[..]), || {
+                    format!("{}.fix_variables({r:?}) = {} want n={} table={want:?} (mod {p})", s.describe(), xs.describe(), n - dl)
+                });
+                chk(loc, "dense_fix_variables", xd.num_vars == n - dl && xd.table().as_deref() == Some(&want[..]), || {
+                    format!("{}.fix_variables({r:?}) = {} want n={} table={want:?} (mod {p})", d.describe(), xd.describe(), n - dl)
+                });
+            }
+        }
     });
 }
 
@@ -957,12 +1132,12 @@ fn mv_term_sweep(ctx: &mut Ctx, n: usize, max_len: usize, max_pow: usize) {
         }
         let t = SparseTerm::new(raw.clone());
         let deg: usize = exps.iter().sum();
-        let ok = t.to_vec() == want
-            && t.degree() == deg
-            && t.vars() == want.iter().map(|x| x.0).collect::<Vec<_>>()
-            && t.powers() == want.iter().map(|x| x.1).collect::<Vec<_>>()
-            && t.is_constant() == (deg == 0);
-        chk(loc, "mv_term_new", ok, || format!("SparseTerm::new({raw:?}) = {:?} (degree {}, constant {}) want {want:?}", t.to_vec(), t.degree(), t.is_constant()));
+        // the exact internal normal form (sorted, merged, no zero powers) is not part of the property: observed only.
+        // degree() / is_constant() are functions of the monomial, not of its representation (documented: sum of powers)
+        let normal = t.to_vec() == want && t.vars() == want.iter().map(|x| x.0).collect::<Vec<_>>() && t.powers() == want.iter().map(|x| x.1).collect::<Vec<_>>();
+        loc.class(if normal { "observed:sparse_term_in_normal_form" } else { "observed:sparse_term_not_in_normal_form" });
+        let ok = t.degree() == deg && t.is_constant() == (deg == 0);
+        chk(loc, "mv_term_degree", ok, || format!("SparseTerm::new({raw:?}) = {:?}: degree {}, constant {}; want degree {deg}", t.to_vec(), t.degree(), t.is_constant()));
         fn evals<F: PrimeField>(loc: &mut Loc, p: u64, n: usize, raw: &RawTerm, t: &SparseTerm) {
             for pi in 0..ipow(p, n) {
                 let x = digits(pi, p, n);
@@ -1083,9 +1258,12 @@ fn mv_binary_sweep<F: PrimeField>(ctx: &mut Ctx, p: u64, max_n: usize, len_for_n
             // f: result = a + f*b (f = p-1 for subtraction)
             let formal = combine(f);
             loc.class_if(formal.is_empty() && !(fa.is_empty() && fb.is_empty()), "mv:cancels_to_zero");
-            let ok = r.num_vars == l && r.degree() == m_degree(&formal) && r.is_zero() == formal.is_empty();
+            // operands with different num_vars: only the pointwise values (at points long enough for both) are
+            // demanded; which num_vars the result reports is observed
+            loc.class_if(a.n != b.n && r.num_vars != l, "observed:mixed_num_vars_result_is_not_the_max");
+            let ok = (a.n != b.n || r.num_vars == l) && r.degree() == m_degree(&formal) && r.is_zero() == formal.is_empty();
             chk(loc, site, ok, || {
-                format!("(n={}) {:?} {op} (n={}) {:?} = {}: want num_vars {l}, degree {}, is_zero {}", a.n, a.terms, b.n, b.terms, mv_describe(r), m_degree(&formal), formal.is_empty())
+                format!("(n={}) {:?} {op} (n={}) {:?} = {}: want num_vars {l} (equal-num_vars operands), degree {}, is_zero {}", a.n, a.terms, b.n, b.terms, mv_describe(r), m_degree(&formal), formal.is_empty())
             });
             for (pi, x) in pts.iter().enumerate() {
                 let want = (a.vals[l][pi] + f * b.vals[l][pi]) % p;
@@ -1110,20 +1288,197 @@ fn mv_binary_sweep<F: PrimeField>(ctx: &mut Ctx, p: u64, max_n: usize, len_for_n
     });
 }
 
+/// n = 4 universe: monomials with up to 4 variables and total degree up to 4, written with unordered and
+/// repeated variables
+fn wide_monomials() -> Vec<RawTerm> {
+    vec![
+        vec![],                               // 1
+        vec![(0, 1)],                         // x0
+        vec![(2, 1), (1, 1)],                 // x1 x2
+        vec![(0, 1), (1, 1), (2, 1)],         // x0 x1 x2
+        vec![(3, 1), (0, 1), (1, 1)],         // x0 x1 x3
+        vec![(0, 1), (1, 1), (0, 1)],         // x0^2 x1
+        vec![(1, 2), (0, 1)],                 // x0 x1^2
+        vec![(3, 3)],                         // x3^3
+        vec![(3, 1), (1, 1), (2, 1), (0, 1)], // x0 x1 x2 x3
+    ]
+}
+fn small_points(n: usize) -> Vec<Vec<u64>> {
+    (0..ipow(3, n)).map(|pi| digits(pi, 3, n)).collect()
+}
+/// constructor, degree, is_zero, evaluate, neg and scaling (0 += (f, q)) on term lists of 3 and 4 terms
+fn mv_wide_sweep<F: PrimeField>(ctx: &mut Ctx, p: u64, all_len4: bool, all_points: bool) {
+    let n = 4usize;
+    let ms = wide_monomials();
+    let coefs = [1u64, p - 1, 0, 2];
+    let nm = ms.len() as u64;
+    let a = nm * 4;
+    let n3 = ipow(a, 3);
+    // length 4 in quick: every ordered list of 4 monomials x 6 coefficient vectors
+    let cvs: [[u64; 4]; 6] = [[1, 1, 1, 1], [1, p - 1, 2, 0], [2, 1, p - 1, p - 1], [p - 1, 1, 0, 1], [1, p - 1, 1, p - 1], [2, 2, 1, 0]];
+    let n4 = if all_len4 { ipow(a, 4) } else { ipow(nm, 4) * cvs.len() as u64 };
+    // 3-term lists: every point of F_p^4 (thorough) / of {0,1,2,p-1}^4 (quick); 4-term lists: {0,1,2}^4
+    let all_pts: Vec<Vec<u64>> = if all_points {
+        (0..ipow(p, n)).map(|pi| digits(pi, p, n)).collect()
+    } else {
+        (0..ipow(4, n)).map(|pi| digits(pi, 4, n).iter().map(|d| [0, 1, 2, p - 1][*d as usize]).collect()).collect()
+    };
+    let few_pts = small_points(n);
+    ctx.sweep(&format!("mv_poly_wide.F{p}.n=4.terms=3..4{}", if all_len4 { ".all" } else { "" }), n3 + n4, |i, loc| {
+        let terms: Vec<(u64, RawTerm)> = if i < n3 {
+            digits(i, a, 3).iter().map(|d| (coefs[(*d % 4) as usize], ms[(*d / 4) as usize].clone())).collect()
+        } else if all_len4 {
+            digits(i - n3, a, 4).iter().map(|d| (coefs[(*d % 4) as usize], ms[(*d / 4) as usize].clone())).collect()
+        } else {
+            let j = i - n3;
+            let cv = cvs[(j % cvs.len() as u64) as usize];
+            digits(j / cvs.len() as u64, nm, 4).iter().enumerate().map(|(k, d)| (cv[k], ms[*d as usize].clone())).collect()
+        };
+        let pts = if terms.len() == 3 { &all_pts } else { &few_pts };
+        let formal = m_formal(p, n, &terms);
+        let keys: Vec<&RawTerm> = terms.iter().map(|x| &x.1).collect();
+        let ndup = (0..keys.len()).map(|x| (0..keys.len()).filter(|y| keys[x] == keys[*y]).count()).max().unwrap_or(0);
+        loc.class("mv:wide_universe");
+        loc.class_if(terms.len() == 4, "mv:4_term_list");
+        loc.class_if(ndup >= 2, "duplicate_terms");
+        loc.class_if(ndup >= 3, "mv:term_given_three_times");
+        loc.class_if(terms.iter().any(|x| x.0 == 0), "zero_coefficient_term");
+        loc.class_if(formal.len() < terms.iter().filter(|x| x.0 != 0).map(|x| &x.1).collect::<BTreeSet<_>>().len(), "duplicates_cancel");
+        loc.class_if(formal.is_empty(), "mv:zero_polynomial_from_terms");
+        loc.class_if(m_degree(&formal) >= 3, "mv:degree>=3");
+        loc.class_if(formal.keys().any(|e| e.iter().filter(|x| **x > 0).count() >= 3), "mv:term_with_>=3_variables");
+        if loc.sampling() {
+            loc.sample(format!("F_{p} mv poly n=4 terms {terms:?}: {} points", pts.len()));
+        }
+        let q = mk_poly::<F>(n, &terms);
+        let q2 = MvPoly::<F>::from_coefficients_slice(n, &terms.iter().map(|(c, t)| (fe::<F>(*c), SparseTerm::new(t.clone()))).collect::<Vec<_>>());
+        chk(loc, "mv_construct", q == q2 && q.num_vars() == n && q.num_vars == n, || format!("from_coefficients_vec/slice({terms:?}) = {} / {}", mv_describe(&q), mv_describe(&q2)));
+        let wd = m_degree(&formal);
+        chk(loc, "mv_degree", q.degree() == wd, || format!("{} from {terms:?}: degree() = {} want {wd}", mv_describe(&q), q.degree()));
+        chk(loc, "mv_is_zero", q.is_zero() == formal.is_empty(), || format!("{} from {terms:?}: is_zero() = {} want {}", mv_describe(&q), q.is_zero(), formal.is_empty()));
+        let nq = q.clone().neg();
+        let scaled: Vec<(u64, MvPoly<F>)> = [0u64, 2, p - 1]
+            .iter()
+            .map(|f| {
+                let mut z = MvPoly::<F>::zero();
+                z += (fe::<F>(*f), &q);
+                (*f, z)
+            })
+            .collect();
+        for x in pts {
+            let fx: Vec<F> = fv(x);
+            let want = m_poly_eval(p, &terms, x);
+            let got = un(&q.evaluate(&fx));
+            chk(loc, "mv_evaluate", got == want, || format!("{} from {terms:?}: evaluate({x:?}) = {got} want {want} (mod {p})", mv_describe(&q)));
+            let gn = un(&nq.evaluate(&fx));
+            chk(loc, "mv_neg", gn == (p - want) % p, || format!("-({}).evaluate({x:?}) = {gn} want {}", mv_describe(&q), (p - want) % p));
+        }
+        for x in &few_pts {
+            let fx: Vec<F> = fv(x);
+            let want = m_poly_eval(p, &terms, x);
+            for (f, z) in &scaled {
+                let g = un(&z.evaluate(&fx));
+                chk(loc, "mv_add_assign_scaled", g == f * want % p, || format!("(0 += ({f}, {})).evaluate({x:?}) = {g} want {}; result {}", mv_describe(&q), f * want % p, mv_describe(z)));
+            }
+        }
+    });
+}
+/// `+`, `-`, `+=`, `-=`, `+= (f, .)` on operands with 3..4 terms each (every 3- and 4-subset of the 9 monomials)
+fn mv_wide_binary_sweep<F: PrimeField>(ctx: &mut Ctx, p: u64, all_points: bool) {
+    let n = 4usize;
+    let ms = wide_monomials();
+    let pts: Vec<Vec<u64>> = if all_points { (0..ipow(p, n)).map(|pi| digits(pi, p, n)).collect() } else { small_points(n) };
+    let fpts: Vec<Vec<F>> = pts.iter().map(|x| fv(x)).collect();
+    struct Opnd<F: PrimeField> {
+        terms: Vec<(u64, RawTerm)>,
+        poly: MvPoly<F>,
+        vals: Vec<u64>,
+    }
+    let mk = |mask: u32, pat: &[u64]| -> Opnd<F> {
+        let terms: Vec<(u64, RawTerm)> = (0..ms.len()).filter(|j| mask >> j & 1 == 1).enumerate().map(|(k, j)| (pat[k % pat.len()], ms[j].clone())).collect();
+        Opnd { poly: mk_poly::<F>(n, &terms), vals: pts.iter().map(|x| m_poly_eval(p, &terms, x)).collect(), terms }
+    };
+    let masks: Vec<u32> = (0u32..1 << ms.len()).filter(|m| (3..=4).contains(&m.count_ones())).collect();
+    let mut lhs: Vec<Opnd<F>> = Vec::new();
+    let mut rhs: Vec<Opnd<F>> = Vec::new();
+    for m in &masks {
+        // quick: all-ones coefficients on the 3-subsets, mixed ones on the 4-subsets; thorough: both on all
+        if all_points || m.count_ones() == 3 {
+            lhs.push(mk(*m, &[1]));
+        }
+        if all_points || m.count_ones() == 4 {
+            lhs.push(mk(*m, &[1, p - 1, 2, 1]));
+        }
+        rhs.push(mk(*m, &[1, 1, p - 1, 2]));
+    }
+    let (nl, nr) = (lhs.len() as u64, rhs.len() as u64);
+    ctx.sweep(&format!("mv_poly_wide_binary.F{p}.n=4.terms=3..4"), nl * nr, |i, loc| {
+        let [ib, ia] = unrank(i, [nr, nl]);
+        let (a, b) = (&lhs[ia as usize], &rhs[ib as usize]);
+        if loc.sampling() {
+            loc.sample(format!("F_{p} mv n=4 {:?} (+,-,+=,-=,+=(f,.) all f) {:?}", a.terms, b.terms));
+        }
+        let fa = m_formal(p, n, &a.terms);
+        let fb = m_formal(p, n, &b.terms);
+        let shared = fa.keys().filter(|k| fb.contains_key(*k)).count();
+        loc.class("mv:wide_universe");
+        loc.class_if(shared >= 2, "mv:operands_share_>=2_monomials");
+        loc.class_if(shared == 0, "mv:operands_share_no_monomial");
+        let check = |loc: &mut Loc, site: &str, r: &MvPoly<F>, f: u64, op: &str| {
+            let mut formal = fa.clone();
+            for (e, c) in &fb {
+                let x = formal.entry(e.clone()).or_insert(0);
+                *x = (*x + f * c) % p;
+            }
+            formal.retain(|_, c| *c != 0);
+            loc.class_if(formal.len() < fa.len().max(fb.len()), "mv:some_terms_cancel");
+            loc.class_if(formal.is_empty(), "mv:cancels_to_zero");
+            let ok = r.num_vars == n && r.degree() == m_degree(&formal) && r.is_zero() == formal.is_empty();
+            chk(loc, site, ok, || format!("{:?} {op} {:?} = {}: want num_vars {n}, degree {}, is_zero {}", a.terms, b.terms, mv_describe(r), m_degree(&formal), formal.is_empty()));
+            for (pi, x) in fpts.iter().enumerate() {
+                let want = (a.vals[pi] + f * b.vals[pi]) % p;
+                let got = un(&r.evaluate(x));
+                chk(loc, site, got == want, || format!("({:?} {op} {:?}).evaluate({:?}) = {got} want {want} (mod {p}); result {}", a.terms, b.terms, pts[pi], mv_describe(r)));
+            }
+        };
+        check(loc, "mv_add", &(&a.poly + &b.poly), 1, "&+&");
+        check(loc, "mv_add", &(a.poly.clone() + b.poly.clone()), 1, "+");
+        let mut x = a.poly.clone();
+        x += &b.poly;
+        check(loc, "mv_add_assign", &x, 1, "+= &");
+        check(loc, "mv_sub", &(&a.poly - &b.poly), p - 1, "&-&");
+        let mut x = a.poly.clone();
+        x -= &b.poly;
+        check(loc, "mv_sub_assign", &x, p - 1, "-= &");
+        for f in 0..p {
+            let mut x = a.poly.clone();
+            x += (fe::<F>(f), &b.poly);
+            check(loc, "mv_add_assign_scaled", &x, f, &format!("+= ({f}, &)"));
+        }
+    });
+}
+
 fn mv_asserts<F: PrimeField>(ctx: &mut Ctx, p: u64) {
     ctx.sweep(&format!("mv_documented_asserts.F{p}"), 4 * 5, |i, loc| {
         let [n, v] = unrank(i, [4, 5]);
         let (n, v) = (n as usize, v as usize);
-        // a variable outside 0..n is rejected by the constructor
+        // malformed inputs (a variable outside 0..n, a point whose length is not num_vars): nothing is demanded,
+        // the observed behaviour is counted; the well-formed neighbours must be accepted
         let r = catch_unwind(AssertUnwindSafe(|| MvPoly::<F>::from_coefficients_vec(n, vec![(F::one(), SparseTerm::new(vec![(v, 1)]))])));
         loc.class_if(v >= n, "assert:mv_variable_range");
-        chk(loc, "mv_construct", r.is_ok() == (v < n), || format!("from_coefficients_vec(n={n}, x_{v}): ok={}", r.is_ok()));
-        // a point with fewer than num_vars coordinates is rejected; longer ones are allowed
+        if v >= n {
+            loc.class(if r.is_ok() { "observed:malformed_input_returns_a_value" } else { "observed:malformed_input_panics" });
+        }
+        chk(loc, "mv_construct", v >= n || r.is_ok(), || format!("from_coefficients_vec(n={n}, x_{v}) panics although {v} < {n}"));
         let q = MvPoly::<F>::from_coefficients_vec(n, vec![(F::one(), SparseTerm::new(vec![]))]);
         let x: Vec<F> = vec![F::one(); v];
         let r = catch_unwind(AssertUnwindSafe(|| q.evaluate(&x)));
         loc.class_if(v < n, "assert:mv_point_length");
-        chk(loc, "mv_evaluate", r.is_ok() == (v >= n) && (v < n || r.as_ref().ok() == Some(&F::one())), || format!("constant 1 with num_vars={n} at a point of length {v}: {:?}", r.as_ref().map(un).ok()));
+        loc.class_if(v > n, "mv:point_longer_than_num_vars");
+        if v != n {
+            loc.class(if r.is_ok() { "observed:malformed_input_returns_a_value" } else { "observed:malformed_input_panics" });
+        }
+        chk(loc, "mv_evaluate", v != n || r.as_ref().ok() == Some(&F::one()), || format!("constant 1 with num_vars={n} at a point of length {v}: {:?}", r.as_ref().map(un).ok()));
     });
 }
 
@@ -1394,6 +1749,12 @@ fn per_field<F: PrimeField>(ctx: &mut Ctx, p: u64) {
         spaces.push(tri(3, p));
     }
     dense_sweeps::<F>(ctx, p, &spaces);
+    // n = 4 (relabel windows of width 2) and n = 5
+    match (p, quick) {
+        (3, _) | (5, _) => dense_wide_sweep::<F>(ctx, p, &[4, 5]),
+        (_, false) => dense_wide_sweep::<F>(ctx, p, &[4]),
+        _ => {}
+    }
     construction_panics::<F>(ctx, p);
     // dense binary operators
     for n in 0..=2usize {
@@ -1424,6 +1785,9 @@ fn per_field<F: PrimeField>(ctx: &mut Ctx, p: u64) {
     if p == 3 && quick {
         concat_sweep::<F>(ctx, p, 1, 3);
     }
+    if p != 7 || !quick {
+        concat_wide_sweep::<F>(ctx, p);
+    }
     // sparse MLE from (index, value) lists
     for n in 0..=3usize {
         let ml = if n == 3 && p != 3 && quick { 2 } else { 3 };
@@ -1434,6 +1798,13 @@ fn per_field<F: PrimeField>(ctx: &mut Ctx, p: u64) {
         sparse_wide_sweep::<F>(ctx, p, 5);
     } else if p == 5 {
         sparse_wide_sweep::<F>(ctx, p, 4);
+    }
+    if quick {
+        if p != 7 {
+            sparse_batch_sweep::<F>(ctx, p, &[5, 6]);
+        }
+    } else {
+        sparse_batch_sweep::<F>(ctx, p, &[5, 6, 7]);
     }
     for n in 0..=3usize {
         // pairs of sparse operands
@@ -1461,6 +1832,14 @@ fn per_field<F: PrimeField>(ctx: &mut Ctx, p: u64) {
         (3, false) => mv_binary_sweep::<F>(ctx, p, 3, &|_| 2),
         (_, true) => mv_binary_sweep::<F>(ctx, p, 3, &|n| if n <= 1 { 2 } else { 1 }),
         (_, false) => mv_binary_sweep::<F>(ctx, p, 3, &|n| if n <= 2 { 2 } else { 1 }),
+    }
+    // n = 4 universe (terms with up to 4 variables, degree up to 4, operands of 3..4 terms)
+    if p == 5 || (p == 7 && !quick) {
+        mv_wide_sweep::<F>(ctx, p, false, !quick);
+        mv_wide_binary_sweep::<F>(ctx, p, !quick);
+    }
+    if p == 5 && !quick {
+        mv_wide_sweep::<F>(ctx, p, true, true);
     }
     mv_asserts::<F>(ctx, p);
 }
@@ -1493,12 +1872,29 @@ fn main() {
         "sum_identically_zero",
         "seq:state_is_special_zero",
         "seq:special_zero_meets_other_dimension",
+        "relabel:window_width>=2",
+        "relabel:window_width>=2_with_gap",
+        "mle:n>=4",
+        "mle:n>=5",
+        "concat:result_n>=4",
+        "sparse_fix:batch_window>=4_several_batches",
+        "sparse_fix:batch_window>=5_several_batches",
+        "sparse:entries=2^k",
+        "sparse:entries=2^k+1",
+        "sparse:entries=2^k-1",
+        "mv:wide_universe",
+        "mv:4_term_list",
+        "mv:term_given_three_times",
+        "mv:degree>=3",
+        "mv:term_with_>=3_variables",
+        "mv:operands_share_>=2_monomials",
+        "mv:some_terms_cancel",
     ]);
     ctx.assume("oracle: u64 arithmetic mod p written in this file (sum over the Boolean hypercube weighted by eq; monomial sums); conversions F::from(u64) / into_bigint are trusted (property C01)");
     ctx.assume("variable order: index bit i (bit 0 least significant) is variable x_i, the documented little-endian convention; fix_variables binds x_0.. first, the remaining variables are renumbered from 0");
     ctx.assume("special zero: Zero::zero() has num_vars = 0 and is the documented neutral element for every dimension; a result in this representation is accepted only if the model table is identically zero, and must then be is_zero(), 0 at the empty point and neutral in a following +/-. Its original dimension is lost (evaluating it at an n-variable point asserts); this is accepted as the library convention and counted in class zero_special_repr:evaluate_at_original_dimension_panics");
-    ctx.assume("relabel: legal iff max(a,b)+k <= num_vars and (a == b or k == 0 or the windows do not overlap); overlapping or out-of-range windows with something to exchange must panic (documented asserts); a == b or k == 0 with an out-of-range window may either panic or return the unchanged table");
-    ctx.assume("SparseMultilinearExtension::from_evaluations with a repeated index: the later pair overrides (undocumented; reported under its own site sparse_construct_duplicate_index)");
+    ctx.assume("relabel: legal iff max(a,b)+k <= num_vars and (a == b or k == 0 or the windows do not overlap); overlapping or out-of-range windows with something to exchange are malformed arguments: nothing is demanded, the behaviour is counted in classes observed:*; a == b or k == 0 with an out-of-range window may either panic or return the unchanged table");
+    ctx.assume("malformed inputs (table length != 2^n, sparse index >= 2^n, a repeated index in SparseMultilinearExtension::from_evaluations, point length != num_vars, partial point longer than num_vars, multivariate variable >= num_vars) are outside the property: nothing is demanded for them, what the library does is counted in classes observed:*; every well-formed neighbour must be accepted");
     ctx.assume("operands of different dimensions are only combined when one of them is the special zero (anything else is a documented assert)");
     ctx.bound("fields", "F_3, F_5, F_7 (derived Montgomery configs D3, D5, D7)");
     ctx.bound("dense_tables", "all tables n=0,1,2 over each field; n=3: all 6561 over F_3, alphabet {0,1,p-1} over F_5 (and over F_7 in thorough)");
@@ -1509,6 +1905,7 @@ fn main() {
     ctx.bound("mv_poly_binary", "operands: term lists over the normal-form monomials of degree <= 2 with coefficients {0,1,p-1}, every n in 0..=3 (mixed num_vars included) plus Zero::zero(); all ordered pairs; list length <= 2 (F_3 thorough), else <= 1 for n=3 (and for n=2 in quick over F_5, F_7); every scalar f for +=(f,.)");
     ctx.bound("mle_binary", "dense: all ordered pairs of tables for n <= 2 (quick F_7 n=2: all x alphabet-3 tables), n=3: all 6561^2 pairs over F_3 in thorough, otherwise all (alphabet) tables x tables with <= 2 non-zero entries; sparse: all ordered pairs of (index,value) lists of length <= 2 (n <= 1; n=2 over F_3; thorough n=2 all fields and n=3 over F_3), else <= 1; every scalar f");
     ctx.bound("concat", "F_3: every list of <= 3 (quick 2) tables with 0..=2 variables each (quick also <= 3 tables with <= 1 variable); F_5, F_7: every list of <= 3 tables with <= 1 variable");
+    ctx.bound("wide_universes", "dense MLE n=4 (unit tables, e_i + 2 e_(i+1), 3 dense tables over {0,1,2}) and n=5 (unit + 3 dense tables) over F_3, F_5 (n=4 over F_7 in thorough): everything the n<=3 sweeps do, incl. all relabel windows; concat of lists of <= 3 parts with 0..4 variables; sparse MLE n=5,6 (7 in thorough) with 1,2,3,4,5,7,8,9,15,16,17,31,32,33,63,64,65 entries in 3 index patterns: evaluate at {0,1,p-1}^n and {2,p-2}^n, fix_variables at every prefix length over a 3-letter alphabet, also for the dense form; multivariate n=4 over F_5 (F_7 thorough): 9 monomials up to x0x1x2x3 / x3^3, coefficients {1,-1,0,2}, every ordered list of 3 terms (points {0,1,2,p-1}^4 in quick, all of F_p^4 in thorough), lists of 4 terms (every monomial list x 6 coefficient vectors in quick, all in thorough; points {0,1,2}^4); binary operators on all pairs of 3..4-term operands (every 3- and 4-subset of the monomials; one coefficient pattern per operand in quick, two for the left operand in thorough)");
     ctx.bound("sequence_models", "dense and sparse over F_3 starting from n=2, operands of every dimension plus Zero::zero()");
     per_field::<D3>(&mut ctx, 3);
     per_field::<D5>(&mut ctx, 5);
